@@ -103,12 +103,13 @@ type SpecDB struct {
 	FuncTypes map[string]bool
 	MethodDefs map[string]*SpecFun
 	FuncTypeLaws map[string]*Expr
+	MethodLaws map[string]*Expr
 	Files     []string
 	Markers   []string // trusted/assume markers found
 }
 
 func NewSpecDB() *SpecDB {
-	return &SpecDB{Contracts: map[string]*Contract{}, Externs: map[string]*Contract{}, Funs: map[string]*SpecFun{}, UFuns: map[string]*UFun{}, Consts: map[string]string{}, Methods: map[string]bool{}, Globals: map[string]string{}, FuncTypes: map[string]bool{}, MethodDefs: map[string]*SpecFun{}, FuncTypeLaws: map[string]*Expr{}}
+	return &SpecDB{Contracts: map[string]*Contract{}, Externs: map[string]*Contract{}, Funs: map[string]*SpecFun{}, UFuns: map[string]*UFun{}, Consts: map[string]string{}, Methods: map[string]bool{}, Globals: map[string]string{}, FuncTypes: map[string]bool{}, MethodDefs: map[string]*SpecFun{}, FuncTypeLaws: map[string]*Expr{}, MethodLaws: map[string]*Expr{}}
 }
 
 type specLine struct {
@@ -222,6 +223,15 @@ func (db *SpecDB) LoadSpecFile(path string) error {
 			if len(f) >= 1 {
 				db.Methods[f[0]] = true
 				db.Markers = append(db.Markers, "pure-method "+f[0])
+				// optional law:  method I.M pure law <expr over recv, result, arg0...>
+				if i := strings.Index(rest, " law "); i >= 0 {
+					e, err := ParseExpr(rest[i+5:])
+					if err != nil {
+						return fail(err)
+					}
+					db.MethodLaws[f[0]] = e
+					db.Markers = append(db.Markers, "method-law "+f[0])
+				}
 			}
 			cur = nil
 		case "ufun":
